@@ -69,7 +69,8 @@ def scenario_for(seed, index, tier):
         login.append(['success'])
         items = []
         for _ in range(rng.randint(0, 12)):
-            n = rng.choice([0, 1, 15, 16, 17, 100, 1000, 4000])
+            n = rng.choice([0, 1, 15, 16, 17, 100, 1000, 4000, 4090, 4097,
+                            5000, 20000])
             items.append(['plugin', 'e:%d' % k, bytes(
                 rng.randrange(256) for _ in range(n)).hex()])
         if rng.random() < 0.3:
